@@ -164,6 +164,22 @@ pub fn block_on<F: std::future::Future>(f: F) -> F::Output {
     RT.with(|rt| rt.block_on(f))
 }
 
+static MT: std::sync::OnceLock<tokio::runtime::Runtime> = std::sync::OnceLock::new();
+
+/// Run a future on the shared multi-thread runtime: the library's spawned tasks
+/// (response loops, servers) then run in real parallel with the harness's peer.
+pub fn block_on_mt<F: std::future::Future>(f: F) -> F::Output {
+    MT.get_or_init(|| {
+        tokio::runtime::Builder::new_multi_thread()
+            .worker_threads(8)
+            .max_blocking_threads(2048)
+            .enable_all()
+            .build()
+            .expect("tokio runtime")
+    })
+    .block_on(f)
+}
+
 pub fn hex(b: &[u8]) -> String {
     let mut s = String::with_capacity(b.len() * 2);
     for x in b.iter().take(96) {
